@@ -6,6 +6,7 @@ Helper lemmas of `Props/C10.lean` about the assembler (`Model/Assemble.lean`):
 * the empty holder (what silent mode substitutes for a statement of an unsupported type) is neutral for the fold.
 -/
 import SqlLineage.Proofs.AStmtLemmas
+import SqlLineage.Proofs.RenameOrder
 
 namespace SqlLineage.Proofs.C10Assemble
 open SqlLineage Graph Assemble AStmt
@@ -50,38 +51,38 @@ theorem rmap_noCol {old new n : Node} (hn : n.isCol = false) (hnew : new.isCol =
   · exact hnew
   · exact hn
 
-theorem noCols_renameOne {g g' : LGraph} (p : Node × Node) (hg : NoCols g) (hp : p.2.isCol = false)
-    (h : renameOne g p = some g') : NoCols g' := by
-  unfold renameOne at h
-  simp only at h
-  split at h
-  · cases h
-  · rename_i g2 hre
-    have h2 : NoCols g2 := by
-      constructor
-      · intro n hn
-        rw [mem_nodes_removeEdge _ _ _ _ hre] at hn
-        obtain ⟨m, hm, rfl⟩ := (mem_nodes_relabel g p.1 p.2 n none).mp hn
-        exact rmap_noCol (hg.nodes m hm) hp
-      · intro e he
-        rw [mem_edges_removeEdge _ _ _ _ hre] at he
-        obtain ⟨a, b, hab, rfl⟩ := (mem_edges_relabel g p.1 p.2 e none).mp he.1
-        have := hg.edges (a, b) (mem_edgesOrdered g (a, b) hab)
-        exact ⟨rmap_noCol this.1 hp, rmap_noCol this.2 hp⟩
-    cases h
-    split
-    · exact noCols_removeNode h2 _
-    · exact h2
+theorem noCols_removeEdges {g : LGraph} (hg : NoCols g) (ps : List (Node × Node)) : NoCols (removeEdges g ps) :=
+  ⟨hg.nodes, fun e he => hg.edges e (List.mem_filter.mp he).1⟩
 
-theorem noCols_renameStep : ∀ (ps : List (Node × Node)) {g g' : LGraph}, NoCols g → (∀ p ∈ ps, p.2.isCol = false) →
-    renameStep g ps = some g' → NoCols g'
-  | [], g, g', hg, _, h => by simp only [renameStep] at h; cases h; exact hg
-  | p :: r, g, g', hg, hp, h => by
-    simp only [renameStep] at h
-    split at h
-    · cases h
-    · rename_i g1 h1
-      exact noCols_renameStep r (noCols_renameOne p hg (hp p (by simp)) h1) (fun q hq => hp q (by simp [hq])) h
+theorem noCols_renameOne {g : LGraph} (p : Node × Node) (hg : NoCols g) (hp : p.2.isCol = false) :
+    NoCols (renameOne g p) := by
+  have h2 : NoCols (g.relabel p.1 p.2) := by
+    constructor
+    · intro n hn
+      obtain ⟨m, hm, rfl⟩ := (mem_nodes_relabel g p.1 p.2 n none).mp hn
+      exact rmap_noCol (hg.nodes m hm) hp
+    · intro e he
+      obtain ⟨a, b, hab, rfl⟩ := (mem_edges_relabel g p.1 p.2 e none).mp he
+      have := hg.edges (a, b) (mem_edgesOrdered g (a, b) hab)
+      exact ⟨rmap_noCol this.1 hp, rmap_noCol this.2 hp⟩
+  unfold renameOne
+  simp only
+  split
+  · exact noCols_removeNode h2 _
+  · exact h2
+
+theorem noCols_renameStep (ps : List (Node × Node)) {g : LGraph} (hg : NoCols g) (hp : ∀ p ∈ ps, p.2.isCol = false) :
+    NoCols (renameStep g ps) := by
+  unfold renameStep
+  have gen : ∀ (l : List (Node × Node)) (G : LGraph), NoCols G → (∀ p ∈ l, p.2.isCol = false) →
+      NoCols (l.foldl renameOne G) := by
+    intro l
+    induction l with
+    | nil => intro G hG _; exact hG
+    | cons p r ih =>
+      intro G hG hl
+      exact ih _ (noCols_renameOne p hG (hl p (by simp))) (fun q hq => hl q (by simp [hq]))
+  exact gen ps _ (noCols_removeEdges hg ps) hp
 
 theorem mem_tagged {g : LGraph} {t : Tag} {n : Node} (h : n ∈ tagged g t) : n ∈ g.nodes := by
   simp only [tagged, List.mem_filter] at h; exact h.1
@@ -114,14 +115,12 @@ theorem noCols_foldStep {g h g' : LGraph} (hg : NoCols g) (hh : NoCols h) (hs : 
   split at hs
   · cases hs; exact noCols_dropStep _ hc
   · split at hs
-    · split at hs
-      · rename_i g1 h1
-        cases hs
-        refine noCols_renameStep _ hc ?_ h1
-        intro p hp
-        simp only [id, stmtRename, List.mem_filter] at hp
-        exact (hh.edges p (mem_edgesOrdered h p hp.1)).2
-      · cases hs
+    · cases hs
+      refine noCols_renameStep _ hc ?_
+      intro p hp
+      rw [RenameOrder.mem_renamesInOrder] at hp
+      simp only [id, stmtRename, List.mem_filter] at hp
+      exact (hh.edges p (mem_edgesOrdered h p hp.1)).2
     · cases hs
       refine noCols_rwStep _ _ hc ?_ ?_
       · intro n hn
